@@ -104,3 +104,7 @@ package gem
 //@ lemma c20-range-equal [C20] uses c20-equal: forall vr *VersionRange, v1, v2 *Version, ecosystem *Ecosystem :: vr != nil && v1 != nil && v2 != nil && wfRange(vr) && ecosystem != nil && (forall i int :: 0 <= i && i < len(vr.constraints) ==> (vr.constraints[i].operator == "=" || vr.constraints[i].operator == "!=" || vr.constraints[i].operator == "<" || vr.constraints[i].operator == "<=" || vr.constraints[i].operator == ">" || vr.constraints[i].operator == ">=")) && v1.Compare(v2) == 0 ==> ((forall i int :: 0 <= i && i < len(vr.constraints) ==> satisfiesConstraint(v1, vr.constraints[i], theEcosystem())) == (forall i int :: 0 <= i && i < len(vr.constraints) ==> satisfiesConstraint(v2, vr.constraints[i], theEcosystem())))
 // ... and the set a range without != accepts is convex in the order
 //@ lemma c20-range-convex [C20] uses c20-convex: forall vr *VersionRange, a, b, d *Version, ecosystem *Ecosystem :: vr != nil && a != nil && b != nil && d != nil && wfRange(vr) && ecosystem != nil && (forall i int :: 0 <= i && i < len(vr.constraints) ==> (vr.constraints[i].operator == "=" || vr.constraints[i].operator == "!=" || vr.constraints[i].operator == "<" || vr.constraints[i].operator == "<=" || vr.constraints[i].operator == ">" || vr.constraints[i].operator == ">=") && vr.constraints[i].operator != "!=") && a.Compare(b) <= 0 && b.Compare(d) <= 0 && (forall i int :: 0 <= i && i < len(vr.constraints) ==> satisfiesConstraint(a, vr.constraints[i], theEcosystem())) && (forall i int :: 0 <= i && i < len(vr.constraints) ==> satisfiesConstraint(d, vr.constraints[i], theEcosystem())) ==> (forall i int :: 0 <= i && i < len(vr.constraints) ==> satisfiesConstraint(b, vr.constraints[i], theEcosystem()))
+
+// ---- pessimistic operator (C05): never below the base (the pinned-prefix part is covered by the bounded layer)
+//@ func satisfiesPessimistic
+//@   ensures below-base: version.Compare(constraint) < 0 ==> !result   [C05]
